@@ -591,8 +591,8 @@ func (s *statusWriter) Patch(ctx context.Context, obj client.Object, patch clien
 }
 
 func (c *Client) SubResource(subResource string) client.SubResourceClient { return nil }
-func (c *Client) Scheme() *runtime.Scheme                                  { return c.scheme }
-func (c *Client) RESTMapper() meta.RESTMapper                              { return nil }
+func (c *Client) Scheme() *runtime.Scheme                                 { return c.scheme }
+func (c *Client) RESTMapper() meta.RESTMapper                             { return nil }
 func (c *Client) GroupVersionKindFor(obj runtime.Object) (schema.GroupVersionKind, error) {
 	return schema.GroupVersionKind{}, errors.New("fakeapi: GroupVersionKindFor not supported")
 }
